@@ -829,3 +829,52 @@ func RWordSib(c *core.Ctx) {
 			"%s is built from %s but %s decides by %s: a character can be a word character for \\b and not for \\w (or the reverse), e.g. 'é' in ECMAScript mode: `a\\b` does not match \"aé\" although é is not in \\w", pr[1], ck, pr[0], pk)
 	}
 }
+
+// ---------------------------------------------------------------------------
+// R-UNIONRET: membership in a list of categories is a union.
+// charInCategories answers "is ch in ANY of these (possibly negated)
+// categories".  Inside the loop over the categories the only sound early exit
+// is `return true` (a member was found); an exit that can be false — "ch is in
+// this category but the category is negated" — ignores the categories that
+// follow and makes the class depend on the order in which it was written
+// ([\W\d] vs [\d\W]).
+// ---------------------------------------------------------------------------
+
+func RUnionRet(c *core.Ctx) {
+	c.Rule("R-UNIONRET", "inside the loop over c.categories in charInCategories every return statement returns the constant true; the negative answer is given only after all categories were examined", 3)
+	p := c.P
+	syn := p.Pkg("syntax")
+	info := syn.TypesInfo
+	fd, _ := p.DeclOf(p.LookupFunc("syntax", "CharSet.charInCategories"))
+	cats := p.LookupField("syntax", "CharSet", "categories")
+	if fd == nil || cats == nil {
+		c.Anchor("syntax.CharSet.charInCategories / CharSet.categories")
+		return
+	}
+	c.Visit("syntax.(*CharSet).charInCategories")
+	n := 0
+	ast.Inspect(fd.Body, func(x ast.Node) bool {
+		rs, ok := x.(*ast.RangeStmt)
+		if !ok || core.FieldOf(info, rs.X) != cats {
+			return true
+		}
+		ast.Inspect(rs.Body, func(y ast.Node) bool {
+			if _, isLit := y.(*ast.FuncLit); isLit {
+				return false
+			}
+			ret, ok := y.(*ast.ReturnStmt)
+			if !ok || len(ret.Results) != 1 {
+				return true
+			}
+			n++
+			tv, isConst := info.Types[ret.Results[0]]
+			c.Check(isConst && tv.Value != nil && tv.Value.String() == "true", fmt.Sprintf("charInCategories / early exit #%d from the category loop is `return true`", n), ret.Pos(),
+				"`return %s` can answer false before the remaining categories were looked at: [\\W\\d] does not match \"5\" (5 is in the negated \\W, so the loop stops) while [\\d\\W] does", types.ExprString(ret.Results[0]))
+			return true
+		})
+		return false
+	})
+	if n == 0 {
+		c.Anchor("returns inside the category loop of charInCategories")
+	}
+}
